@@ -19,7 +19,9 @@ Inductive value :=
 | VRef (p : place)                      (* reference (shared or unique) to a place *)
 | VRefTmp (v : value)                   (* reference to a temporary / local value *)
 | VStr (s : string)                     (* &'static str produced by stringify! *)
-| VTok (ts : toks).                     (* an opaque user expression, identified by its tokens *)
+| VTok (ts : toks)                      (* an opaque user expression, identified by its tokens *)
+| VBytes (l : list nat).                (* C20: the object representation of a union value (size_of::<Self>() bytes);
+                                           behind a reference: a byte slice `&[u8]` *)
 
 Definition store := list (string * value).
 
